@@ -30,6 +30,16 @@ CLAIMED = {
     "C10": ("bounded symbolic model checking of WATCH k; <one command>; MULTI; SET marker; EXEC for every key type of k and a table of 20-30 commands per type (in-place "
             "writers of every type, replacing writers, rename from/onto, copy onto, expiry changes, flushes, reads, failing writes), issued by the watching or another connection "
             "before or after MULTI: EXEC aborts iff Redis counts the command as a modification; UNWATCH/DISCARD forget", "5/C10"),
+    "C11": ("bounded symbolic model checking of the block/wake protocol: the real BLPOP/BRPOP (one or two keys) or BLMOVE with timeout 0 runs as the strand under test; "
+            "at the entry of every lock-taking function of its protocol and whenever it is parked in its select, another connection performs zero or one command chosen "
+            "symbolically among RPUSH x1/x2, LPOP, DEL, push to the second key (<= 3 environment commands per path). Checked: a strand parked for good never coexists with "
+            "a non-empty list it waits on (no lost wake-up); the returned element was pushed, was taken by nobody else, and pushed = returned + taken + remaining "
+            "(exactly-once); the connection is back to normal afterwards. Wait table: three waiters on symbolic subsets of two keys, unblock(name, n) serves the longest "
+            "waiters first and keeps both linked structures consistent. Counterexamples replay natively with a goroutine scheduler driven at the same schedule points", "5/C11"),
+    "C12": ("bounded symbolic model checking of how a block ends: CLIENT UNBLOCK id [TIMEOUT|ERROR] issued while the target is parked, or the (stub) timer firing: null / "
+            "UNBLOCKED error reply, reply 1 only for a blocked target (0 for idle or unknown ids, 0 after the fact), capture state / pending flag / mailbox / wait "
+            "queues reset, a later push stays in the list, the connection blocks and is served again; blocking commands queued in MULTI return null at EXEC without "
+            "blocking. Outside the claim: promptness after the timeout (Go runtime timers) and TCP close / CLIENT KILL delivery", "5/C12"),
     "C13": ("bounded symbolic model checking of the parser on every byte string up to 5 (quick) / 7 (thorough) bytes and of the length-taking parser routines for every "
             "non-negative declared count: no panic, no allocation by declared size, consumed length inside the buffer (command-level no-panic obligations are part of "
             "the per-family checks C02-C05/C18, whose harnesses run under vCatch with unconstrained int64 arguments)", "5/C13"),
